@@ -3,8 +3,11 @@
 package hdf5
 
 import (
+	"encoding/binary"
 	"encoding/hex"
 	"fmt"
+	"hash/crc32"
+	"io"
 	"math"
 	"os"
 	"regexp"
@@ -43,6 +46,10 @@ type vfObject struct {
 	Read     string // float64 bit patterns or ERR
 	Strings  string
 	Compound string
+	// VLen is set for contiguous variable-length datasets: every element resolved by the
+	// harness itself (element reference -> independently parsed global heap collection),
+	// as length:checksum per element, because the read API offers no reader for them.
+	VLen     string
 	Attrs    []vfAttr // sorted by name
 	AttrErr  bool
 	Children []string // in Children() order
@@ -56,6 +63,9 @@ func (o *vfObject) Content() string {
 		// file addresses are layout, not content
 		info := vfAddrRE.ReplaceAllString(o.Info, "address=*")
 		fmt.Fprintf(&sb, " info=%q shape=%s read=%s strings=%s compound=%s", info, o.Shape, o.Read, o.Strings, o.Compound)
+		if o.VLen != "" {
+			fmt.Fprintf(&sb, " vlen=%s", o.VLen)
+		}
 	}
 	if o.Kind == "group" {
 		fmt.Fprintf(&sb, " children=%q", o.Children)
@@ -177,6 +187,9 @@ func vfDatasetDump(d *Dataset, o *vfObject) {
 		if hdr, err := core.ReadObjectHeader(d.file.osFile, d.address, d.file.sb); err == nil {
 			if di, err := core.ReadDatasetInfo(hdr, d.file.sb); err == nil && di.Dataspace != nil {
 				o.Shape = fmt.Sprint(di.Dataspace.Dimensions)
+				if di.Datatype != nil && di.Datatype.Class == core.DatatypeVarLen && di.Layout != nil && di.Layout.Class == core.LayoutContiguous {
+					o.VLen = vfVLenView(d.file.osFile, di.Layout.DataAddress, di.Dataspace.Dimensions)
+				}
 			}
 		}
 	})
@@ -331,4 +344,66 @@ func (t *vfTree) Get(p string) *vfObject {
 		return o
 	}
 	return nil
+}
+
+// vfVLenView resolves the elements of a contiguous variable-length dataset without the
+// library's readers: element references (either length,address,index as the format has it or
+// address,index as this library writes it) into collections parsed by vfParseGCOL.
+func vfVLenView(r io.ReaderAt, addr uint64, dims []uint64) string {
+	n := uint64(1)
+	for _, d := range dims {
+		n *= d
+	}
+	if n > 1<<16 {
+		return "TOO-MANY"
+	}
+	st, ok := r.(interface{ Stat() (os.FileInfo, error) })
+	if !ok {
+		return "NO-STAT"
+	}
+	fi, err := st.Stat()
+	if err != nil {
+		return "NO-STAT"
+	}
+	file := make([]byte, fi.Size())
+	if _, err := r.ReadAt(file, 0); err != nil && err != io.EOF {
+		return "READ-ERR"
+	}
+	if addr+16*n > uint64(len(file)) {
+		return "ELEMENTS-OUTSIDE-FILE"
+	}
+	cols := map[uint64]*vfGCOL{}
+	var sb strings.Builder
+	isCol := func(a uint64) bool { return a+4 <= uint64(len(file)) && string(file[a:a+4]) == "GCOL" }
+	for e := uint64(0); e < n; e++ {
+		el := file[addr+16*e : addr+16*e+16]
+		saddr, sidx := binary.LittleEndian.Uint64(el[4:12]), binary.LittleEndian.Uint32(el[12:16])
+		laddr, lidx := binary.LittleEndian.Uint64(el[0:8]), binary.LittleEndian.Uint32(el[8:12])
+		var caddr uint64
+		var cidx uint32
+		switch {
+		case saddr == 0 && laddr == 0:
+			sb.WriteString("null,")
+			continue
+		case isCol(laddr):
+			caddr, cidx = laddr, lidx
+		case isCol(saddr):
+			caddr, cidx = saddr, sidx
+		default:
+			sb.WriteString("UNRESOLVED,")
+			continue
+		}
+		g := cols[caddr]
+		if g == nil {
+			g = vfParseGCOL(file, caddr)
+			cols[caddr] = g
+		}
+		ob, ok := g.objs[uint16(cidx)]
+		if !ok {
+			sb.WriteString("MISSING,")
+			continue
+		}
+		fmt.Fprintf(&sb, "%d:%08x,", len(ob), crc32.ChecksumIEEE(ob))
+	}
+	return sb.String()
 }
